@@ -1,6 +1,7 @@
 (** C16/C17: facts about [Command::build] (AotTree.build) and its text side (TextTree.tbuild) that the
     PowerShell / elvish theorems need to speak about [clap_complete::aot::generate] as a whole:
-    the root keeps the bin name [set_bin_name] gave it; [tbuild] succeeds whenever [build] does; [build]
+    [build] never runs out of fuel (fuel = depth + 2; depth + 1 suffices); the root keeps the bin name
+    [set_bin_name] gave it; [tbuild] succeeds whenever [build] does; [build]
     keeps a tree inside the class [cmd_plain plain] (every name consists of [plain] characters) when the
     generated names ("help", "version", "h", "V") and the space are [plain]. *)
 From ClapModel Require Import Base.Bytes Complete.AotTree Complete.TextTree Complete.BashModel Complete.AotProofs
@@ -219,3 +220,210 @@ Section BuildPlain.
   Lemma cp_set_bin_name c bin : cp c = true -> plainl plain bin = true -> cp (set_bin_name c bin) = true.
   Proof. rewrite !cp_iff. destruct c; cbn. tauto. Qed.
 End BuildPlain.
+
+(** ---- [Command::build] never runs out of fuel ---- *)
+Fixpoint maxd (l : list cmd) : nat := match l with [] => O | s :: t => Nat.max (depth s) (maxd t) end.
+
+Lemma depth_unfold c : depth c = S (maxd (c_subs c)).
+Proof.
+  destruct c as [n al args subs bin h v s g]. reflexivity.
+Qed.
+
+Lemma maxd_in l sc : In sc l -> (depth sc <= maxd l)%nat.
+Proof.
+  induction l as [|x l IH]; intros H; [destruct H|]. cbn [maxd]. destruct H as [->|H]; [lia|].
+  specialize (IH H). lia.
+Qed.
+
+Lemma maxd_app a b : maxd (a ++ b) = Nat.max (maxd a) (maxd b).
+Proof. induction a as [|x a IH]; [reflexivity|]. cbn [app maxd]. rewrite IH. lia. Qed.
+
+Lemma maxd_map f l : (forall x, In x l -> depth (f x) = depth x) -> maxd (map f l) = maxd l.
+Proof.
+  induction l as [|x l IH]; intros H; [reflexivity|]. cbn [map maxd].
+  rewrite (H x (or_introl eq_refl)), IH; [reflexivity|]. intros y Hy. apply H. now right.
+Qed.
+
+Lemma depth_pos c : (1 <= depth c)%nat.
+Proof. rewrite depth_unfold. lia. Qed.
+
+Lemma subs_with_sets c s g : c_subs (with_sets c s g) = c_subs c. Proof. destruct c; reflexivity. Qed.
+Lemma subs_with_args c l : c_subs (with_args c l) = c_subs c. Proof. destruct c; reflexivity. Qed.
+Lemma subs_with_version c v : c_subs (with_version c v) = c_subs c. Proof. destruct c; reflexivity. Qed.
+Lemma subs_with_subs c l : c_subs (with_subs c l) = l. Proof. destruct c; reflexivity. Qed.
+Lemma gset_with_args c l : c_gset (with_args c l) = c_gset c. Proof. destruct c; reflexivity. Qed.
+Lemma gset_with_subs c l : c_gset (with_subs c l) = c_gset c. Proof. destruct c; reflexivity. Qed.
+Lemma gset_with_version c v : c_gset (with_version c v) = c_gset c. Proof. destruct c; reflexivity. Qed.
+Lemma gset_with_sets c s g : c_gset (with_sets c s g) = g. Proof. destruct c; reflexivity. Qed.
+Lemma set_with_args c l : c_set (with_args c l) = c_set c. Proof. destruct c; reflexivity. Qed.
+Lemma set_with_subs c l : c_set (with_subs c l) = c_set c. Proof. destruct c; reflexivity. Qed.
+Lemma set_with_sets c s g : c_set (with_sets c s g) = s. Proof. destruct c; reflexivity. Qed.
+
+Lemma depth_with_sets c s g : depth (with_sets c s g) = depth c.
+Proof. now rewrite !depth_unfold, subs_with_sets. Qed.
+Lemma depth_with_args c l : depth (with_args c l) = depth c.
+Proof. now rewrite !depth_unfold, subs_with_args. Qed.
+Lemma depth_with_version c v : depth (with_version c v) = depth c.
+Proof. now rewrite !depth_unfold, subs_with_version. Qed.
+
+Lemma depth_propagate p sc : depth (propagate_subcommand p sc) = depth sc.
+Proof.
+  unfold propagate_subcommand. rewrite depth_with_sets.
+  destruct (s_pver (c_set p) && c_version p); [apply depth_with_version|reflexivity].
+Qed.
+
+Lemma depth_copy : forall c, depth (copy_subtree_for_help c) = depth c.
+Proof.
+  induction c as [n al args subs bin h v s g IH] using cmd_ind'.
+  cbn [copy_subtree_for_help]. rewrite !depth_unfold. cbn [c_subs]. f_equal.
+  apply maxd_map. intros x Hx. rewrite Forall_forall in IH. exact (IH x Hx).
+Qed.
+
+(** the global [DisableHelpSubcommand] *)
+Definition dhs_g (c : cmd) : bool := s_dhs (c_gset c).
+
+(** the fold of [_propagate_global_args] over one subcommand *)
+Definition add_globals (globals : list arg) (sc : cmd) : cmd :=
+  fold_left (fun sc a => if is_some (find_arg sc (a_id a)) then sc else with_args sc (c_args sc ++ [a])) globals sc.
+
+Lemma add_globals_inv (P : cmd -> Prop) globals :
+  (forall sc l, P sc -> P (with_args sc l)) -> forall sc, P sc -> P (add_globals globals sc).
+Proof.
+  intros HP. unfold add_globals. induction globals as [|a gl IH]; intros sc H; [exact H|].
+  cbn [fold_left]. apply IH. destruct (is_some _); [exact H|apply HP, H].
+Qed.
+
+Lemma depth_add_globals gl sc : depth (add_globals gl sc) = depth sc.
+Proof.
+  apply (add_globals_inv (fun x => depth x = depth sc)); [|reflexivity].
+  intros x l H. now rewrite depth_with_args.
+Qed.
+Lemma gset_add_globals gl sc : c_gset (add_globals gl sc) = c_gset sc.
+Proof.
+  apply (add_globals_inv (fun x => c_gset x = c_gset sc)); [|reflexivity].
+  intros x l H. now rewrite gset_with_args.
+Qed.
+
+(** the subcommands of [build_self c] *)
+Lemma build_self_subs c :
+  exists g : cmd -> cmd,
+    (forall x, depth (g x) = depth x) /\ (forall x, c_gset (g x) = c_gset x) /\
+    c_subs (build_self c) = map g (c_subs (bs_help_version (bs_propagate (bs_settings c)))).
+Proof.
+  unfold build_self, bs_globals. set (x := bs_help_version _). rewrite subs_with_subs.
+  eexists (fun sc => if beq (c_name sc) (lit "help") && negb (is_set s_dhs x) then sc
+                     else add_globals (filter a_global (c_args x)) sc).
+  split; [|split; [|reflexivity]].
+  - intros y. destruct (_ && _); [reflexivity|apply depth_add_globals].
+  - intros y. destruct (_ && _); [reflexivity|apply gset_add_globals].
+Qed.
+
+Lemma is_set_dhs_args c l : is_set s_dhs (with_args c l) = is_set s_dhs c.
+Proof. unfold is_set. now rewrite set_with_args, gset_with_args. Qed.
+
+Lemma help_version_subs x :
+  c_subs (bs_help_version x) =
+  if negb (is_set s_dhs x) then c_subs x ++ [help_subcommand
+        (let c1 := if negb (is_set s_dhf x) then with_args x (c_args x ++ [help_arg]) else x in
+         if negb (is_disable_version_flag_set c1) then with_args c1 (c_args c1 ++ [version_arg]) else c1)]
+  else c_subs x.
+Proof.
+  unfold bs_help_version.
+  set (c1 := if negb (is_set s_dhf x) then with_args x (c_args x ++ [help_arg]) else x).
+  set (c2 := if negb (is_disable_version_flag_set c1) then with_args c1 (c_args c1 ++ [version_arg]) else c1).
+  assert (E1 : is_set s_dhs c1 = is_set s_dhs x) by (unfold c1; destruct (negb _); [apply is_set_dhs_args|reflexivity]).
+  assert (E2 : is_set s_dhs c2 = is_set s_dhs x)
+    by (unfold c2; destruct (negb (is_disable_version_flag_set c1)); [rewrite is_set_dhs_args|]; exact E1).
+  assert (S2 : c_subs c2 = c_subs x).
+  { unfold c2, c1. destruct (negb (is_disable_version_flag_set _)); destruct (negb (is_set s_dhf x));
+      rewrite ?subs_with_args; reflexivity. }
+  rewrite E2. destruct (negb (is_set s_dhs x)); [rewrite subs_with_subs, S2; reflexivity|exact S2].
+Qed.
+
+Lemma settings_dhs c : is_set s_dhs (bs_propagate (bs_settings c)) = true \/ c_subs c <> [].
+Proof.
+  destruct (c_subs c) as [|x l] eqn:E; [left|right; discriminate].
+  unfold bs_propagate, bs_settings, is_set. rewrite set_with_subs, set_with_sets.
+  unfold has_subcommands. rewrite E. cbn [is_nil negb s_dhs]. reflexivity.
+Qed.
+
+Lemma dhs_g_is_set c : dhs_g c = true -> is_set s_dhs (bs_propagate (bs_settings c)) = true.
+Proof.
+  intros H. unfold bs_propagate, bs_settings, is_set. rewrite gset_with_subs, gset_with_sets.
+  unfold dhs_g in H. rewrite H. apply orb_true_r.
+Qed.
+
+Lemma propagate_subs c : c_subs (bs_propagate (bs_settings c)) = map (propagate_subcommand (bs_settings c)) (c_subs c).
+Proof. unfold bs_propagate. rewrite subs_with_subs. unfold bs_settings. now rewrite subs_with_sets. Qed.
+
+Lemma dhs_g_propagate p sc : dhs_g p = true -> dhs_g (propagate_subcommand p sc) = true.
+Proof.
+  intros H. unfold dhs_g, propagate_subcommand in *. rewrite gset_with_sets. cbn [sets_or s_dhs]. rewrite H.
+  apply orb_true_r.
+Qed.
+
+Lemma dhs_g_settings c : dhs_g (bs_settings c) = dhs_g c.
+Proof. unfold dhs_g, bs_settings. now rewrite gset_with_sets. Qed.
+
+(** below a global DisableHelpSubcommand nothing is added: fuel = depth is enough *)
+Lemma build_recursive_dhs : forall fuel c, dhs_g c = true -> (depth c <= fuel)%nat -> build_recursive fuel c <> None.
+Proof.
+  induction fuel as [|f IH]; intros c Hd Hf; [pose proof (depth_pos c); lia|].
+  cbn [build_recursive].
+  destruct (map_opt_total (build_recursive f) (c_subs (build_self c))) as [r Hr]; [|rewrite Hr; discriminate].
+  intros a Ha. destruct (build_self_subs c) as (g & Hgd & Hgg & Hs). rewrite Hs in Ha.
+  apply in_map_iff in Ha. destruct Ha as (x & <- & Hx).
+  rewrite help_version_subs, (dhs_g_is_set c Hd) in Hx. cbn [negb] in Hx.
+  rewrite propagate_subs in Hx. apply in_map_iff in Hx. destruct Hx as (sc & <- & Hsc).
+  apply IH.
+  - unfold dhs_g. rewrite Hgg. apply dhs_g_propagate. now rewrite dhs_g_settings.
+  - rewrite Hgd, depth_propagate. pose proof (maxd_in _ _ Hsc). rewrite depth_unfold in Hf. lia.
+Qed.
+
+Lemma help_subcommand_dhs p : dhs_g (help_subcommand p) = true.
+Proof.
+  unfold help_subcommand, dhs_g. rewrite gset_with_sets. cbn [s_dhs]. rewrite gset_with_version.
+  unfold propagate_subcommand. rewrite gset_with_sets. cbn [sets_or s_dhs].
+  destruct (s_pver (c_set p) && c_version p); rewrite ?gset_with_version; reflexivity.
+Qed.
+
+Lemma help_subcommand_depth p : c_subs p <> [] -> depth (help_subcommand p) = depth p.
+Proof.
+  intros Hne. unfold help_subcommand. rewrite depth_with_sets, depth_with_version, depth_propagate.
+  rewrite !depth_unfold. cbn [c_subs]. f_equal. rewrite maxd_app, (maxd_map _ _ (fun x _ => depth_copy x)).
+  cbn [maxd]. rewrite depth_with_sets. cbn. destruct (c_subs p) as [|x l]; [congruence|].
+  cbn [maxd]. pose proof (depth_pos x). lia.
+Qed.
+
+(** in general one more level (the generated [help] subcommand of the deepest node) *)
+Lemma build_recursive_total : forall fuel c, (S (depth c) <= fuel)%nat -> build_recursive fuel c <> None.
+Proof.
+  induction fuel as [|f IH]; intros c Hf; [lia|].
+  cbn [build_recursive].
+  destruct (map_opt_total (build_recursive f) (c_subs (build_self c))) as [r Hr]; [|rewrite Hr; discriminate].
+  intros a Ha. destruct (build_self_subs c) as (g & Hgd & Hgg & Hs). rewrite Hs in Ha.
+  apply in_map_iff in Ha. destruct Ha as (x & <- & Hx).
+  rewrite help_version_subs in Hx.
+  assert (Horig : In x (c_subs (bs_propagate (bs_settings c))) -> build_recursive f (g x) <> None).
+  { intros Hin. rewrite propagate_subs in Hin. apply in_map_iff in Hin. destruct Hin as (sc & <- & Hsc).
+    apply IH. rewrite Hgd, depth_propagate. pose proof (maxd_in _ _ Hsc). rewrite depth_unfold in Hf. lia. }
+  destruct (negb (is_set s_dhs (bs_propagate (bs_settings c)))) eqn:Eh; [|exact (Horig Hx)].
+  apply in_app_iff in Hx. destruct Hx as [Hx|[<-|[]]]; [exact (Horig Hx)|].
+  destruct (settings_dhs c) as [Hd|Hne]; [rewrite Hd in Eh; discriminate|].
+  set (p := (if negb (is_disable_version_flag_set _) then _ else _)).
+  assert (Sp : c_subs p = c_subs (bs_propagate (bs_settings c))).
+  { unfold p. destruct (negb (is_disable_version_flag_set _)); destruct (negb (is_set s_dhf _));
+      rewrite ?subs_with_args; reflexivity. }
+  apply build_recursive_dhs.
+  - unfold dhs_g. rewrite Hgg. apply help_subcommand_dhs.
+  - rewrite Hgd, help_subcommand_depth.
+    + rewrite depth_unfold, Sp, propagate_subs, (maxd_map _ _ (fun x _ => depth_propagate _ x)).
+      rewrite depth_unfold in Hf. lia.
+    + rewrite Sp, propagate_subs. destruct (c_subs c); [congruence|discriminate].
+Qed.
+
+Theorem build_total c : build c <> None.
+Proof.
+  unfold build. destruct (build_recursive (build_fuel c) c) eqn:E; [discriminate|].
+  exfalso. apply (build_recursive_total (build_fuel c) c); [unfold build_fuel; lia|exact E].
+Qed.
